@@ -7,7 +7,7 @@ use serde_json::value::RawValue as RawJsonValue;
 #[cfg(feature = "unstable-msc4274")]
 use super::gallery::GalleryItemType;
 use super::{
-    relation_serde::deserialize_relation, MessageType, RoomMessageEventContent,
+    relation_serde::deserialize_relation, MessageType, Relation, RoomMessageEventContent,
     RoomMessageEventContentWithoutRelation,
 };
 use crate::Mentions;
@@ -24,7 +24,21 @@ impl<'de> Deserialize<'de> for RoomMessageEventContent {
 
         let MentionsDeHelper { mentions } = from_raw_json_value(&json)?;
 
-        Ok(Self { msgtype: from_raw_json_value(&json)?, relates_to, mentions })
+        let mut msgtype: MessageType = from_raw_json_value(&json)?;
+        if let MessageType::_Custom(custom) = &mut msgtype {
+            // A custom message type keeps all the fields it doesn't know in its data. Don't keep
+            // the ones that are (de)serialized through the other fields of this struct there, they
+            // would be serialized twice.
+            custom.data.remove("m.mentions");
+            if let Some(relation) = &relates_to {
+                custom.data.remove("m.relates_to");
+                if matches!(relation, Relation::Replacement(_)) {
+                    custom.data.remove("m.new_content");
+                }
+            }
+        }
+
+        Ok(Self { msgtype, relates_to, mentions })
     }
 }
 
@@ -37,7 +51,13 @@ impl<'de> Deserialize<'de> for RoomMessageEventContentWithoutRelation {
 
         let MentionsDeHelper { mentions } = from_raw_json_value(&json)?;
 
-        Ok(Self { msgtype: from_raw_json_value(&json)?, mentions })
+        let mut msgtype: MessageType = from_raw_json_value(&json)?;
+        if let MessageType::_Custom(custom) = &mut msgtype {
+            // See the implementation for `RoomMessageEventContent`.
+            custom.data.remove("m.mentions");
+        }
+
+        Ok(Self { msgtype, mentions })
     }
 }
 
